@@ -47,7 +47,12 @@ where
         expr: v1beta0::Expression,
     ) -> Result<v1beta0::Expression, crate::reduce::Error> {
         match expr {
-            v1beta0::Expression::EvalCompiler(op) => Ok(self.reduce_op(*op)?),
+            v1beta0::Expression::EvalCompiler(op) => {
+                // operands were visited bottom-up but may still be wrapped (applied
+                // params, pending built-ins): reduce them before evaluating the op.
+                let op = crate::reduce::Apply::reduce(*op)?;
+                Ok(self.reduce_op(op)?)
+            }
             _ => Ok(expr),
         }
     }
